@@ -1,5 +1,5 @@
 (* Proofs about the StatsD reporter model (Model/Statsd.v). *)
-From Coq Require Import ZArith List Bool Arith Lia.
+From Coq Require Import ZArith List Bool Arith Lia Permutation.
 From Tally Require Import Model.Buckets Model.Statsd.
 Import ListNotations.
 Open Scope Z_scope.
@@ -118,6 +118,19 @@ Section WithOracles.
   Proof.
     rewrite calls_run. apply Forall_forall. intros x Hx. apply in_map_iff in Hx as (o & <- & Ho).
     apply the_call_notags.
+  Qed.
+
+  (* the reporter keeps no state between calls: the multiset of client calls depends
+     only on the multiset of report calls, whatever their order / interleaving *)
+  Lemma run_perm c ops ops' : Permutation ops ops' ->
+    Permutation (calls (run c ops)) (calls (run c ops')).
+  Proof.
+    intros Hp. rewrite !calls_run. apply Permutation_map.
+    induction Hp as [|x l l' _ IH|x y l|l l' l'' _ IH1 _ IH2]; cbn.
+    - constructor.
+    - destruct (is_report x); [constructor|]; exact IH.
+    - destruct (is_report x), (is_report y); try apply Permutation_refl. apply perm_swap.
+    - eapply Permutation_trans; eassumption.
   Qed.
 
   Lemma step_retag c t o : step c (retag t o) = step c o.
